@@ -124,6 +124,7 @@ def cases(draw, isa, archs, kernels):
              "   "]))])
     return {"isa": isa, "arch": force_arch or draw(st.sampled_from(archs)), "kernel": name, "body": body, "pro": pro, "epi": epi,
             "order": draw(st.sampled_from([0, 0, 1, 2, 3, 5])), "noarch": noarch,
+            "formfeed": draw(st.integers(0, 3)) == 0,
             "holes": draw(st.lists(st.integers(0, 20), max_size=3)) if draw(st.integers(0, 2)) == 0 else [],
             "style": style, "blank": draw(st.sampled_from([0, 0, 1, 3, 996, 1200, 4900])),
             "cuts": cuts, "seps": seps, "noise": noise, "fixed": draw(st.booleans())}
@@ -157,8 +158,10 @@ def check_case(case):
                     "excluded": {"generated-part-contains-a-real-marker": 1}}
     pro_lines = [x for d in case["pro"] for x in d.split("\n")]
     epi_lines = [x for d in case["epi"] for x in d.split("\n")]
-    lines = [""] * case["blank"] + pro_lines + sm + case["body"] + em + epi_lines
-    first_body = case["blank"] + len(pro_lines) + len(sm) + 1  # 1-based
+    # a page-break line (form feed, as in hand-written .S files) is one blank line like any other
+    ff = ["\f"] if case.get("formfeed") else []
+    lines = ff + [""] * case["blank"] + pro_lines + sm + case["body"] + em + epi_lines
+    first_body = len(ff) + case["blank"] + len(pro_lines) + len(sm) + 1  # 1-based
     body_nos = list(range(first_body, first_body + len(case["body"])))
     code = "\n".join(lines) + "\n"
     parser = ParserX86ATT() if isa == "x86" else ParserAArch64()
@@ -253,6 +256,8 @@ def check_case(case):
         cl.append("lines-entries-not-ascending")
     if case.get("noarch"):
         cl.append("no---arch:scalar-integer-x86")
+    if case.get("formfeed"):
+        cl.append("form-feed-line-before-the-kernel")
     return {"nontrivial": nt, "classes": cl, "key": [code, lines_arg, case["noise"], case["arch"], case["fixed"]],
             "sample": {"arch": case["arch"], "file": [l for l in lines if l][:14], "lines_arg": lines_arg,
                        "first_body_line": first_body, "noise": case["noise"]}}
